@@ -9,6 +9,7 @@ mod image;
 mod seglog;
 mod iohook;
 mod ovl;
+mod overflow;
 mod stress;
 mod locksdemo;
 mod util;
@@ -57,6 +58,7 @@ fn main() {
         "bitops" => bitops::run(seed, cases, &mut sink),
         "bitops-node" => bitops::run_nodes(seed, cases, &mut sink),
         "seglog" => seglog::run(seed, cases, &mut sink),
+        "overflow" => overflow::run(seed, cases, &mut sink),
         "core-pp" => core_pp::run(seed, cases, &mut sink),
         "core-mp" => core_mp::run(seed, cases, &mut sink),
         "core-mp-corpus" => {
